@@ -105,7 +105,30 @@ def make_prop(rng, prob, alg):
 
 
 def gen_problem(rng):
-    theme = rng.choice(["int", "int", "int", "int", "int", "int", "bool", "bool", "circuit", "circuit", "graph"])
+    theme = rng.choice(["int", "int", "int", "int", "int", "int", "bool", "bool", "circuit", "circuit", "graph", "wide"])
+    if theme == "wide":
+        # domains of 64..140 values (the small themes never exceed 5): few solutions thanks to a linear relation, so that whole
+        # enumerations, optimisation and shaving stay cheap while every width-dependent path of the engine is reached
+        kind = rng.choice(["sum", "sum", "digits", "gap"])
+        a, b = rng.randint(-40, 40), rng.randint(-40, 40)
+        w0, w1 = rng.randint(64, 140), rng.randint(64, 140)
+        if kind == "sum":
+            p = nv.Prob([(a, a + w0), (b, b + w1)])
+            c0, c1 = rng.choice([(1, 1), (1, 1), (1, -1), (2, 1)])
+            p.props.append(([0, 1], "affine_eq", [c0, c1, c0 * rng.randint(a, a + w0) + c1 * rng.randint(b, b + w1)]))
+        elif kind == "digits":
+            k = rng.randint(20, 40)
+            p = nv.Prob([(0, w0 + 60), (0, rng.randint(2, 4)), (0, rng.randint(0, 3))])
+            p.props.append(([0, 1, 2], "affine_eq", [1, -k, -1, 0]))
+        else:
+            p = nv.Prob([(a, a + w0), (a, a + w0)])
+            p.props.append(([0, 1], "affine_leq", [1, -1, -(w0 - rng.randint(1, 4))]))
+        if rng.random() < 0.4:
+            q = make_prop(rng, p, rng.choice(["affine_leq", "max_leq", "min_geq", "alldifferent"]))
+            if q:
+                p.props.append(q)
+        rng.shuffle(p.props)
+        return p, theme
     if theme == "graph":
         # strong connectivity posted WITHOUT alldifferent (it is decisive on instantiated successor tuples by itself, but a weak
         # filter on intervals: the search and shaving have to do the work)
